@@ -233,10 +233,10 @@ Proof.
   intros e w n Ht Hex Hw Hm. unfold mod_array_size in Hm.
   destruct (eval_constant_int e) as [[k v]|] eqn:Ee; try discriminate.
   pose proof (eval_constant_int_sound e w k v Ht Hw Ee Hex) as R.
-  destruct (u64 v =? 0); [discriminate|]. inv Hm.
+  destruct (v <=? 0); [discriminate|]. inv Hm.
   destruct w as [b|b| |]; cbn [rep] in R; try contradiction; destruct R as [-> [-> Hb]]; cbn [payload].
-  - unfold to32, u64. transitivity (wrap (sgn b)); [unfold wrap, W64, M32; lia | apply wrap_sgn; assumption].
-  - unfold to32, u64, in32, wrap, W64, M32 in *. lia.
+  - unfold to32. apply wrap_sgn. assumption.
+  - unfold to32. apply wrap_id. assumption.
 Qed.
 
 End ModProofs.
